@@ -142,10 +142,10 @@ def run_image(rec, cards, region, tok, func, fileshape, dtype, base):
     data = np.where(tok > 0, value_of(tok.astype(float)), np.nan)
     rec["img"] = tok.tolist()
     rec["size_ok"] = True
-    rec["thin"] = bool(func == "mask_file" and len(fileshape) > 2 and min(H, W) == 1)
+    rec["thin"] = bool(func != "mask_plane" and len(fileshape) > 2 and min(H, W) == 1)
     files = []
     try:
-        if func == "mask_file":
+        if func in ("mask_file", "mask_file_cli"):
             rf = base + ".mim"
             region.save(rf)
             inf = base + "_in.fits"
@@ -155,10 +155,14 @@ def run_image(rec, cards, region, tok, func, fileshape, dtype, base):
         else:
             wcs = make_wcs(cards)
         for neg, fld in ((False, "outF"), (True, "outT")):
-            if func == "mask_file":
+            if func in ("mask_file", "mask_file_cli"):
                 outf = base + "_out%d.fits" % int(neg)
                 files.append(outf)
-                MIMAS.mask_file(rf, inf, outf, negate=neg)
+                if func == "mask_file":
+                    MIMAS.mask_file(rf, inf, outf, negate=neg)
+                else:
+                    from AegeanTools.CLI import MIMAS as cli
+                    cli.main(["--maskimage", rf, inf, outf] + (["--negate"] if neg else []))
                 with fits.open(outf) as hl:
                     out = np.array(hl[0].data, dtype=np.float64)
             else:
@@ -322,7 +326,7 @@ def observe_rimg(job):
             continue            # prefer inputs where the region boundary crosses the image
         skip = near_edge(ra, dec, depth)
         func = job["func"]
-        if func != "mask_file":
+        if func == "mask_plane":
             P = 1
         rec = blank_image_record(job["id"], func, H, W, P)
         rec.update({"In": In.tolist(), "skip": skip.tolist(), "seed": job["seed"], "pat": "random",
@@ -420,7 +424,7 @@ def run_table(rec, region, coords, inbits, func, fmt, names_sel, order_seed, bas
                    for p, c, b in zip(prow, coords, inbits)]
     files = []
     try:
-        if func == "mask_catalog":
+        if func != "mask_table":
             rf, inf = base + ".mim", base + "_in." + fmt
             region.save(rf)
             if os.path.exists(inf):
@@ -428,10 +432,14 @@ def run_table(rec, region, coords, inbits, func, fmt, names_sel, order_seed, bas
             t.write(inf, format={"csv": "ascii.csv", "fits": "fits"}[fmt])
             files += [rf, inf]
         for neg, fld, nfld in ((False, "outF", "namesF"), (True, "outT", "namesT")):
-            if func == "mask_catalog":
+            if func != "mask_table":
                 outf = base + "_out%d.%s" % (int(neg), fmt)
                 files.append(outf)
-                MIMAS.mask_catalog(rf, inf, outf, negate=neg, racol=racol, deccol=deccol)
+                if func == "mask_catalog":
+                    MIMAS.mask_catalog(rf, inf, outf, negate=neg, racol=racol, deccol=deccol)
+                else:
+                    from AegeanTools.CLI import MIMAS as cli
+                    cli.main(["--maskcat", rf, inf, outf, "--colnames", racol, deccol] + (["--negate"] if neg else []))
                 o = Table.read(outf, format={"csv": "ascii.csv", "fits": "fits"}[fmt])
             else:
                 o = MIMAS.mask_table(region, t, negate=neg, racol=racol, deccol=deccol)
@@ -583,7 +591,7 @@ def key_of(rec, fails):
         if rec.get("thin"):       # a spatial axis of length 1 in a file with more than two axes
             cls = "thin-cube P=%d" % rec["P"]
         return "image %s %s fails=%s" % (rec["func"], cls, ",".join(fails))
-    cls = "classes=%s" % rec["classes"] if rec.get("classes") != "random" else "random-table"
+    cls = "rowkinds=%s" % "".join(sorted(set(rec["classes"]))) if rec.get("classes") != "random" else "random-table"
     if rec.get("classes") == "":
         cls = "empty-table"
     elif rec.get("classes") == "random" and not rec["rows"]:
@@ -707,6 +715,7 @@ def run(ctx):
     jobs_emit = [("emit_3x4", mc_constants(3, 4, 5, False, True))]
     if not quick:
         jobs_emit.append(("emit_3x3_full", mc_constants(3, 3, 0, True, True, tables=False)))
+        jobs_emit.append(("emit_2x4_full", mc_constants(2, 4, 0, True, True, tables=False)))
     cases = {}
     for name, consts in jobs_emit:
         res = tlc_job(ctx, "MC_Masking", common.cfg(spec="Spec", constants=consts, invariants=INVARIANTS, deadlock=False),
@@ -745,11 +754,11 @@ def run(ctx):
     nimg, ntab = (220, 200) if quick else (4000, 3000)
     for i in range(nimg):
         s = rng.randint(0, 2 ** 31 - 1)
-        func = "mask_plane" if i % 2 == 0 else "mask_file"
+        func = ("mask_plane", "mask_file", "mask_plane", "mask_file", "mask_file_cli")[i % 5]
         jobs.append({"type": "rimg", "id": "rimg/%d/%s" % (s, func), "seed": s, "func": func})
     for i in range(ntab):
         s = rng.randint(0, 2 ** 31 - 1)
-        func = "mask_table" if i % 2 == 0 else "mask_catalog"
+        func = ("mask_table", "mask_catalog", "mask_table", "mask_catalog", "mask_catalog_cli")[i % 5]
         jobs.append({"type": "rtab", "id": "rtab/%d/%s" % (s, func), "seed": s, "func": func})
     jobs_by_id = {j["id"]: j for j in jobs}
     if len(jobs_by_id) != len(jobs):
